@@ -329,6 +329,35 @@ func parMap(f func(int) (int, string), workers, n int) (int, int) {
 }
 
 // Programs returns the program grid of a tier.
+// rangeThenOp: a stage goroutine ranges over its input until it is closed and
+// only THEN performs its first other channel operation (send, select, receive):
+// whatever the range statement leaves behind in the goroutine's VM when it ends
+// by close meets a different kind of operation.
+func rangeThenOp(n, b int, op string) Prog {
+	var w strings.Builder
+	w.WriteString(hdr())
+	w.WriteString("func main() {\n")
+	fmt.Fprintf(&w, "\tin := make(chan int, %d)\n\tout := make(chan int)\n\tgate := make(chan int, 1)\n\tgate <- 7\n", b)
+	w.WriteString("\tgo func() {\n\t\tsum := 0\n\t\tfor v := range in {\n\t\t\tsum += v\n\t\t}\n")
+	switch op {
+	case "send":
+		w.WriteString("\t\tout <- sum\n")
+	case "select":
+		w.WriteString("\t\tselect {\n\t\tcase out <- sum:\n\t\t}\n")
+	case "recv":
+		w.WriteString("\t\tg := <-gate\n\t\tout <- sum + g\n")
+	case "select2":
+		w.WriteString("\t\tselect {\n\t\tcase g := <-gate:\n\t\t\tout <- sum + g\n\t\tcase out <- sum:\n\t\t\tout <- <-gate\n\t\t}\n")
+	}
+	w.WriteString("\t}()\n")
+	fmt.Fprintf(&w, "\tfor i := 0; i < %d; i++ {\n\t\tin <- i + 1\n\t}\n\tclose(in)\n\ta := <-out\n", n)
+	if op == "select2" {
+		w.WriteString("\tselect {\n\tcase b := <-out:\n\t\ta += b\n\tdefault:\n\t}\n")
+	}
+	w.WriteString("\tprintln(\"sum\", a)\n}\n")
+	return Prog{Name: fmt.Sprintf("rangethen-%s-n%d-b%d", op, n, b), Src: w.String()}
+}
+
 func Programs(tier string) []Prog {
 	var ps []Prog
 	for _, s := range []int{1, 2} {
@@ -378,6 +407,13 @@ func Programs(tier string) []Prog {
 		ps = append(ps, selectClosed(n, true))
 	}
 	ps = append(ps, selectClosed(2, false))
+	for _, op := range []string{"send", "select", "recv"} {
+		for _, n := range []int{0, 1, 2} {
+			for _, b := range []int{0, 1} {
+				ps = append(ps, rangeThenOp(n, b, op))
+			}
+		}
+	}
 	if tier == "thorough" {
 		ps = append(ps, multiConsumer(3, 4), nativeGo(8))
 	}
